@@ -33,7 +33,7 @@ from prompt_toolkit.validation import ValidationError, Validator
 
 ID = "C14"
 DRIVER = "drv_c14"
-PROPS = ["Ptk.Props.C14"]
+PROPS = ["Ptk.Props.C14", "Ptk.Props.C14Scan"]
 LEVEL_TEXT = ("Lean 4 theorems over an executable model of Buffer history navigation (history_backward/forward with "
               "the prefix filter, go_to_history, auto_up/down), the working-copy mechanism incl. the asynchronous "
               "loader, validate / validate_and_handle / append_to_history / reset and the PromptSession accept glue: "
